@@ -152,12 +152,18 @@ Section Handle.
   Definition error (g : cfg) (v : Z * Z) (reason : Z) (msg : list Z) : outcome :=
     send (err_response v (now g) reason msg).
 
-  (* the tail of _handle_message_loop: write, compare with max_size, replace, send.  On the two paths where the
-     request could not be used (certificate refused, parse failed) the same comparison runs against the default
-     maximum with a fixed 200-byte error response, so it never fires there (EncodeProofs.fixed_errors_small) and
-     `handle` sends those directly. *)
-  Definition reply (g : cfg) (rq : request) (enc : option bytes) (max : option Z) : outcome :=
-    match enc with
+  (* the tail of _handle_message_loop: write the response (if that raises: a GENERAL_FAILURE error response at the
+     response's own version is written instead, /repo commit d6c2cec), compare with max_size, replace, send.
+     On the two paths where the request could not be used (certificate refused, parse failed) the same steps run
+     on a fixed 200-byte error response against the default maximum; nothing can fire there
+     (SessionProofs.fixed_errors_small) and `handle` sends those directly. *)
+  Definition reply (g : cfg) (rq : request) (enc : option bytes) (respver : Z * Z) (max : option Z) : outcome :=
+    let written :=
+      match enc with
+      | Some b => Some b
+      | None => err_response respver (now g) R_GENERAL_FAILURE MSG_ENCODE
+      end in
+    match written with
     | None => Escaped
     | Some b =>
         if effective_max max <? zlen b
@@ -173,14 +179,16 @@ Section Handle.
         | None => ({| out := error g (1, 0) R_INVALID_MESSAGE MSG_PARSE; call := None |}, st)
         | Some rq =>
             match authenticate c (plugins g) with
-            | None => ({| out := reply g rq (err_response (rq_version rq) (now g) R_AUTHENTICATION_NOT_SUCCESSFUL MSG_AUTH) None;
+            | None => ({| out := reply g rq (err_response (rq_version rq) (now g) R_AUTHENTICATION_NOT_SUCCESSFUL MSG_AUTH)
+                                        (rq_version rq) None;
                           call := None |}, st)
             | Some id =>
                 let (r, st') := engine rq id st in
                 ({| out := match r with
-                           | EResp enc max _ => reply g rq enc max
-                           | EKmipErr reason msg => reply g rq (err_response (rq_version rq) (now g) reason msg) None
-                           | ECrash => reply g rq (err_response (rq_version rq) (now g) R_GENERAL_FAILURE MSG_GENERAL) None
+                           | EResp enc max ver => reply g rq enc ver max
+                           | EKmipErr reason msg => reply g rq (err_response (rq_version rq) (now g) reason msg) (rq_version rq) None
+                           | ECrash => reply g rq (err_response (rq_version rq) (now g) R_GENERAL_FAILURE MSG_GENERAL)
+                                              (rq_version rq) None
                            end;
                     call := Some id |}, st')
             end
